@@ -47,7 +47,7 @@ MEDIA = [
     'application/vnd.mozilla.xul+xml', 'application/vnd.google-earth.kml+xml', 'application/xhtml+voice+xml', 'text/vnd.x.y+xml', 'APPLICATION/ATOM+XML', 'application/x.a_b-1+xml',
     'application/xml+foo', 'application/vnd.foo+json', 'text/x.html',
 ]  # None = no response object; '' = response without Content-Type header
-CHARSETS = [None, 'utf-8', 'ISO-8859-1', 'koi8-r']
+CHARSETS = [None, 'utf-8', 'ISO-8859-1', 'koi8-r', 'EMPTY', 'EMPTYQ']  # EMPTY: a charset parameter without value (charset=), EMPTYQ: charset="" - both name no encoding
 XMLS = [
     ('none', ''), ('decl-noenc', '<?xml version="1.0"?>'), ('decl-utf-8', '<?xml version="1.0" encoding="utf-8"?>'),
     ('decl-latin', "<?xml version='1.0' encoding='ISO-8859-1' standalone='yes'?>"), ('decl-koi', '<?xml version="1.0" encoding="koi8-r" ?>'),
@@ -62,6 +62,7 @@ METAS = [
     ('nocharset', '<meta http-equiv="Content-Type" content="text/html">', None),
     ('two', '<meta http-equiv="Content-Type" content="text/html; charset=koi8-r"><meta http-equiv="Content-Type" content="text/html; charset=utf-8">', 'koi8-r'),
     ('other-meta', '<meta name="x" content="text/html; charset=utf-8">', None),
+    ('empty', '<meta http-equiv="Content-Type" content="text/html; charset=">', None),
 ]  # fmt: skip
 BODIES = ['<html><head>%s</head><body>x</body></html>', '%s']
 
@@ -72,10 +73,10 @@ class Resp:
         if media_type:
             ct = media_type
             if charset:
-                ct += '; charset=' + charset
+                ct += '; charset=' + {'EMPTY': '', 'EMPTYQ': '""'}.get(charset, charset)
             self.m['Content-Type'] = ct
         elif charset:
-            self.m['Content-Type'] = 'text/plain; charset=' + charset
+            self.m['Content-Type'] = 'text/plain; charset=' + {'EMPTY': '', 'EMPTYQ': '""'}.get(charset, charset)
 
     def info(self):
         return self.m
@@ -106,7 +107,7 @@ def run_row(ctx, encutils, row, record=True, poison=None):
         mt = 'text/plain'
     if media == '' and charset is None:
         mt = 'text/plain'
-    exp = M.decide(mt, charset, doc, metacs, has_response)
+    exp = M.decide(mt, None if charset in ('EMPTY', 'EMPTYQ') else charset, doc, metacs, has_response)
     known = exp['known']
     exp_mismatch = any(not same_codec(a, b) for a, b in itertools.combinations(known, 2))
     arg = doc.encode('latin-1') if as_bytes else doc
@@ -139,7 +140,7 @@ def run_row(ctx, encutils, row, record=True, poison=None):
         if key in ('xml', 'encoding') and xmlname.startswith('bom') and g is not None and e is not None:
             if not same_codec(g, e):
                 bad.append(key)
-        elif g != e:
+        elif (g or None) != (e or None):  # (an empty name is no encoding)
             bad.append(key)
         if isinstance(g, str) and g != g.lower():
             bad.append(key + ':not-lower-case')
@@ -206,6 +207,14 @@ def sniffers(ctx, encutils, count):
         elif r < 0.35:
             k = rng.randrange(len(doc))
             doc = doc[:k] + doc[k + 1 :]  # mutation: one character dropped
+        if rng.random() < 0.12:
+            # no declaration at all (with and without BOM), also longer than what the sniffer reads
+            doc = rng.choice(['<a/>', 'plain text', '<html><head></head></html>', 'x' * 3000, '\n\n<r/>'])
+            bomname = None
+            r = 0.99
+            if rng.random() < 0.3:
+                bom, bomname = rng.choice(M.BOMS)
+                doc = bom.decode('latin-1') + doc
         exp = M.sniff_xml(doc, 'utf-8')
         exp_nodefault = M.sniff_xml(doc, None)
         pos = rng.randint(0, len(doc))
@@ -217,6 +226,15 @@ def sniffers(ctx, encutils, count):
         try:
             got = encutils.detectXMLEncoding(fp, log=uselog)
             got2 = encutils.detectXMLEncoding(doc, log=uselog, includeDefault=False)
+            # the same two questions the other way round: a string with the default, a stream without it
+            fp2 = io.StringIO(doc)
+            fp2.seek(pos)
+            got3 = encutils.detectXMLEncoding(fp2, log=uselog, includeDefault=False)
+            got4 = encutils.detectXMLEncoding(doc, log=uselog)
+            if fp2.tell() != pos:
+                ctx.violation('sniff.streampos', dict(case, includeDefault=False), {'before': pos, 'after': fp2.tell()})
+            if (got3, got4) != (got2, got):
+                ctx.violation('sniff.value', dict(case, what='string and stream disagree'), {'stream,default / string,no-default': [got, got2], 'stream,no-default / string,default': [got3, got4]})
         except Exception as e:
             feats = ['doc.shorter-than-4'] if len(doc) < 4 else []
             ctx.violation('sniff.exception', case, {'tb': core.short_tb(e)}, features=feats, site=core.raise_site(e))
@@ -247,7 +265,7 @@ def sniffers(ctx, encutils, count):
             except Exception as e:
                 ctx.violation('meta.exception', {'kind': 'meta', 'doc': doc}, {'tb': core.short_tb(e)}, site=core.raise_site(e))
                 continue
-            if enc != metacs:
+            if (enc or None) != metacs:  # (an empty charset parameter names no encoding: '' or None)
                 ctx.violation('meta.value', {'kind': 'meta', 'doc': doc}, {'got': enc, 'expected': metacs})
 
 
